@@ -24,13 +24,31 @@ provides is declared exactly once - class or alias - and what it is declared as 
 under that name; nothing else is declared), an explicit exactly-once count for the names of each multi-name group, and an
 independent route that EXECUTES the stub and compares the bindings of the resulting class with the object's types (same
 stub object <=> same type).  The same cases go to the Lean model.
+
+Third and fourth family (harness/v9_c20.py; one generator of ABSTRACT definition sets whose names and data attributes the harness
+knows without asking the library):
+DEEP ANONYMOUS NESTING - structures / unions with a chain of 2-3 anonymous members directly inside one another (struct in union in
+struct, union in struct in union), mixed with named nested members (tagged, untagged, arrays of), arrays, pointers, bit-fields,
+user types; loaded through a random route under random endianness / pointer width / compiled / aligned.  Oracle: the stub class
+(and every inline class, and the text of generate_structure_stub called directly) declares exactly the data attribute names of
+the definition, in order - the fields of anonymous members folded in at any depth, never a generated __anonymous_N__ name - as
+annotations and as __init__ keywords, each with the hint the declaration prescribes; a value parsed from bytes (random calling
+convention: class call / read / reads / cs.read, bytes / bytearray / memoryview / BytesIO / real file) provides every declared
+name, holds instances of what the hints name, and its repr / bool / == / hash keep working.
+DEFINITIONS LOADED THROUGH EVERY LOADING ROUTE - the same set through load(), loadfile() (real file), several load() calls, the
+legacy parser (deftype=DEF_LEGACY, text and file; only the syntax it registers faithfully), the construction API (_make_struct /
+_make_union / _make_enum / _make_flag / _make_array / _make_pointer / Field / add_type by object and by name; also empty structure +
+add_field with and without start_update), load() + API mixed, and a real module through generate_file_stub; sets centre on
+structures with BOTH a tag and typedef names (`typedef struct _Foo {...} Foo, FooAlias;`).  Oracle: the above plus NAMES: the stub
+declares every name the harness defined (constant, enum, alias, tag, every typedef name) exactly once and nothing else.
+The cases of both go to the Lean model as well (of the routes family: the load, legacy and api route of every set).
 """
 from __future__ import annotations
 
 import ast
 import keyword
 
-from .. import common, impl, v8_c20
+from .. import common, impl, v8_c20, v9_c20
 from ..common import A, Case, Result, mkrng, parse_sexp, run_driver, sx
 
 KEYWORDS = set(keyword.kwlist)
@@ -446,7 +464,16 @@ def run(env) -> Result:
                 "top-level-variable / single-name sibling forms, declarators inside the name list, repeated names, aliases added by object) "
                 "optionally between ordinary definition sets, under random endianness / pointer width / compiled / aligned; same oracle plus "
                 "an exactly-once count per name group and an execution of the stub whose bindings are compared with the object's types; "
-                "distinct = (definitions, options); non-trivial = some type is registered under >= 2 names")
+                "distinct = (definitions, options); non-trivial = some type is registered under >= 2 names. "
+                "Third family (v9-deep): abstract definition sets ending in a struct/union with a chain of 2-3 directly nested anonymous members "
+                "(plus named nested members, arrays, pointers, bit-fields, user types), one random loading route, random options; oracle: the "
+                "stub class / inline classes / generate_structure_stub declare exactly the definition's data attribute names in order "
+                "(anonymous members folded) as annotations and __init__ keywords with the prescribed hints; parsed instances (random calling "
+                "convention) provide every declared name, hold instances of the hinted types, repr/bool/==/hash work. "
+                "Fourth family (v9-routes): every set through load, loadfile, split load calls, legacy parser (text and file; legacy-compatible "
+                "sets), construction API (fields at creation / add_field), load+API mixed, generate_file_stub of a real module; same oracle "
+                "plus: the stub declares every name the harness defined exactly once and nothing else (tag and every typedef name of "
+                "`typedef struct _Foo {...} Foo, FooAlias;`). distinct = (definitions, route)")
     m = impl.dc()
     from dissect.cstruct.tools import stubgen as sg  # imported from /repo by impl.dc()
 
@@ -528,6 +555,7 @@ def run(env) -> Result:
         metas.append((data, stub, sig))
     res.sample({"definitions": metas[25][0]["definitions"], "stub": metas[25][1]}) if len(metas) > 25 else None
     multiname_family(env, res, m, sg, viol, lines, metas)
+    v9_c20.run_families(env, res, m, sg, _hooks(viol), lines, metas, mkrng)
     answers = run_driver(lines) if env["driver_ok"] else [None] * len(lines)
     for (data, stub, sig), ans in zip(metas, answers):
         if ans is None:
@@ -630,6 +658,20 @@ def multiname_family(env, res, m, sg, viol, lines, metas):
             viol(f"the cstruct object cannot be snapshotted for the model ({type(e).__name__}: {e})", dict(data, stub=stub), sig)
 
 
+class _hooks:
+    """what harness/v9_c20.py needs from this module"""
+
+    Bad = Bad
+    oracle = staticmethod(oracle)
+
+    def __init__(self, viol=None):
+        self.viol = viol
+
+    @staticmethod
+    def line(m, cs):
+        return sx([A("stubgen")] + snapshot(m, cs))
+
+
 REPLAY_EXACT = True  # the recorded definition set is re-evaluated directly
 
 
@@ -638,6 +680,8 @@ def replay(body) -> int:
     from dissect.cstruct.tools import stubgen as sg
 
     data = body["case"]
+    if str(data.get("family", "")).startswith("v9-"):
+        return v9_c20.replay(m, sg, data, _hooks())
     print(data["definitions"])
     for k in ("options", "aliases_by_name", "aliases_by_object"):
         if data.get(k):
